@@ -230,7 +230,7 @@ Definition dispatch_calendar (name : string) (a : list tok) : option (list tok *
             match spec_valid y m d h mi s ns with Some b => [tb b] | None => nospec end)
   | "from_greg"%string, [TZ y; TZ m; TZ d; TZ h; TZ mi; TZ s; TZ ns; TZ t] =>
       let t := norm_ts t in
-      Some (match maybe_from_gregorian y m d h mi s ns (ts_of_Z t) with
+      Some (match maybe_from_gregorian_fast y m d h mi s ns (ts_of_Z t) with
             | inl e => TZ 1 :: tepoch e
             | inr InvalidGregorianDate => [TErr 1] | inr DurUnderflow => [TErr 2] | inr DurOverflow => [TErr 3] end,
             match spec_valid y m d h mi s ns with
@@ -252,7 +252,7 @@ Definition dispatch_calendar (name : string) (a : list tok) : option (list tok *
             else nospec)
   | "doy_int"%string, [TZ c; TZ n; TZ t] =>
       let t := norm_ts t in
-      Some (topt (fun z => [TZ z]) (day_of_year_integer (mk_epoch c n t)),
+      Some (topt (fun z => [TZ z]) (day_of_year_integer_fast (mk_epoch c n t)),
             let w := pval c n + spec_gregorian_zero t in
             if in_rangev w then
               let '(y, _, _) := civil_of_days (w / NS_PER_DAY) in [TZ (w / NS_PER_DAY - civil_days y 1 1 + 1)]
